@@ -1061,6 +1061,7 @@ where
     /// * `Err(BTreeError)` if failed
     pub fn insert(&self, doc_id: PK, field_value: FV, now_ms: u64) -> Result<bool, BTreeError> {
         // Shared with other mutations, exclusive against `compact_buckets`.
+        anda_db_utils::verif_wait!("gate:read", || !self.mutation_gate.is_locked_exclusive());
         let _mutation_guard = self.mutation_gate.read();
 
         // Validate `doc_id` serialization up-front, before any state is
@@ -1072,6 +1073,7 @@ where
                 source: err,
             })? + 2;
 
+        anda_db_utils::verif_point!("insert:max_bucket_id.load");
         let bucket = self.max_bucket_id.load(Ordering::Relaxed);
 
         // Ensure the current bucket exists.
@@ -1083,7 +1085,9 @@ where
         // contains_key (shard read lock) first: every insert hits the same current
         // bucket id, so taking the shard write lock via entry() each time would
         // serialize concurrent inserts on this hot path.
+        anda_db_utils::verif_point!("insert:buckets.contains_key");
         if !self.buckets.contains_key(&bucket) {
+            anda_db_utils::verif_point!("insert:buckets.entry(current)");
             self.buckets
                 .entry(bucket)
                 .or_insert_with(|| (0, false, UniqueVec::default(), 0));
@@ -1094,6 +1098,7 @@ where
         let mut size_increase = 0;
         let mut appended_existing_posting = false;
         let mut target_bucket = bucket;
+        anda_db_utils::verif_point!("insert:postings.entry");
         match self.postings.entry(field_value.clone()) {
             dashmap::Entry::Occupied(mut entry) => {
                 let posting = entry.get_mut();
@@ -1143,6 +1148,7 @@ where
             // `remove_btree_key_if_posting_absent`) found nothing to remove.
             // Inserting unconditionally would leave a phantom key in the btree
             // with no backing posting.
+            anda_db_utils::verif_point!("insert:btree.write");
             let mut btree = self.btree.write();
             if self.postings.contains_key(&field_value) {
                 btree.insert(field_value.clone());
@@ -1152,6 +1158,7 @@ where
         // If the index was modified, update bucket state
         let mut new_bucket = 0;
         if size_increase > 0 {
+            anda_db_utils::verif_point!("insert:buckets.entry(target)");
             // Update bucket state
             let mut b = self
                 .buckets
@@ -1222,6 +1229,7 @@ where
 
         if new_bucket > 0 {
             // Create a new bucket and migrate this data to it
+            anda_db_utils::verif_point!("insert:buckets.entry(new)");
             match self.buckets.entry(new_bucket) {
                 dashmap::Entry::Vacant(entry) => {
                     // Create a new bucket with the initial size
@@ -1237,6 +1245,7 @@ where
         }
 
         if size_increase > 0 {
+            anda_db_utils::verif_point!("insert:metadata.write");
             self.update_metadata(|m| {
                 m.stats.version += 1;
                 m.stats.last_inserted = now_ms;
@@ -1260,6 +1269,7 @@ where
     /// * `bool` - `true` if the document_id-field_value pair was successfully removed, `false` otherwise
     pub fn remove(&self, doc_id: PK, field_value: FV, now_ms: u64) -> bool {
         // Shared with other mutations, exclusive against `compact_buckets`.
+        anda_db_utils::verif_wait!("gate:read", || !self.mutation_gate.is_locked_exclusive());
         let _mutation_guard = self.mutation_gate.read();
 
         let mut removed = false;
@@ -1269,6 +1279,7 @@ where
         let mut bucket_id = 0;
 
         {
+            anda_db_utils::verif_point!("remove:postings.get_mut");
             if let Some(mut posting) = self.postings.get_mut(&field_value) {
                 bucket_id = posting.0;
                 // The whole-posting size is only consumed when this removal
@@ -1297,12 +1308,14 @@ where
                 // Atomically check-and-remove: only remove if the posting is still empty.
                 // Between dropping the `get_mut` above and here, a concurrent `insert`
                 // could have added a new doc_id, making the posting non-empty again.
+                anda_db_utils::verif_point!("remove:postings.remove_if");
                 entry_removed = self
                     .postings
                     .remove_if(&field_value, |_, posting| posting.2.is_empty())
                     .is_some();
 
                 if entry_removed {
+                    anda_db_utils::verif_point!("remove:btree.write");
                     self.remove_btree_key_if_posting_absent(&field_value);
                 }
             }
@@ -1314,6 +1327,7 @@ where
             };
 
             // Update the bucket state
+            anda_db_utils::verif_point!("remove:buckets.get_mut");
             if let Some(mut b) = self.buckets.get_mut(&bucket_id) {
                 b.0 = b.0.saturating_sub(size_decrease);
                 self.mark_bucket_dirty(&mut b);
@@ -1330,6 +1344,7 @@ where
                 }
             }
 
+            anda_db_utils::verif_point!("remove:metadata.write");
             self.update_metadata(|m| {
                 m.stats.version += 1;
                 m.stats.last_deleted = now_ms;
@@ -1390,6 +1405,7 @@ where
         }
 
         // Shared with other mutations, exclusive against `compact_buckets`.
+        anda_db_utils::verif_wait!("gate:read", || !self.mutation_gate.is_locked_exclusive());
         let _mutation_guard = self.mutation_gate.read();
 
         // Validate `doc_id` serialization up-front, before any state is
@@ -1411,6 +1427,7 @@ where
         // Skip duplicate field values if not allowed
         if !self.config.allow_duplicates {
             for field_value in &field_values {
+                anda_db_utils::verif_point!("insert_array:precheck.postings.get");
                 if let Some(posting) = self.postings.get(field_value)
                     && !posting.2.contains(&doc_id)
                 {
@@ -1424,8 +1441,11 @@ where
         }
 
         // Ensure the current bucket exists (see insert()).
+        anda_db_utils::verif_point!("insert_array:max_bucket_id.load");
         let bucket_id = self.max_bucket_id.load(Ordering::Relaxed);
+        anda_db_utils::verif_point!("insert_array:buckets.contains_key");
         if !self.buckets.contains_key(&bucket_id) {
+            anda_db_utils::verif_point!("insert_array:buckets.entry(current)");
             self.buckets
                 .entry(bucket_id)
                 .or_insert_with(|| (0, false, UniqueVec::default(), 0));
@@ -1443,6 +1463,7 @@ where
         for field_value in field_values {
             let mut size_increase = 0;
             let mut target_bucket_id = bucket_id;
+            anda_db_utils::verif_point!("insert_array:postings.entry");
             match self.postings.entry(field_value.clone()) {
                 dashmap::Entry::Occupied(mut entry) => {
                     let posting = entry.get_mut();
@@ -1507,6 +1528,7 @@ where
         // Same phantom-key guard as in `insert`: skip keys whose posting was
         // concurrently removed between posting creation and this point.
         if !new_btree_values.is_empty() {
+            anda_db_utils::verif_point!("insert_array:btree.write");
             let mut btree = self.btree.write();
             for field_value in new_btree_values {
                 if self.postings.contains_key(&field_value) {
@@ -1520,6 +1542,7 @@ where
         // field_values_to_migrate: (old_bucket_id, field_value, size)
         let mut field_values_to_migrate: Vec<(u32, FV, usize)> = Vec::new();
         for (bucket_id, (size_delta, field_values)) in bucket_updates {
+            anda_db_utils::verif_point!("insert_array:buckets.entry(update)");
             let mut bucket_entry = self
                 .buckets
                 .entry(bucket_id)
@@ -1567,9 +1590,11 @@ where
 
         // Phase 3: Create new buckets if needed
         if !field_values_to_migrate.is_empty() {
+            anda_db_utils::verif_point!("insert_array:max_bucket_id.fetch_add");
             let mut next_bucket_id = self.max_bucket_id.fetch_add(1, Ordering::Relaxed) + 1;
 
             {
+                anda_db_utils::verif_point!("insert_array:buckets.entry(next)");
                 self.buckets
                     .entry(next_bucket_id)
                     .or_insert_with(|| (0, false, UniqueVec::default(), 0));
@@ -1577,10 +1602,12 @@ where
             }
 
             for (old_bucket_id, field_value, size) in field_values_to_migrate {
+                anda_db_utils::verif_point!("insert_array:migrate.postings.get_mut");
                 if let Some(mut posting) = self.postings.get_mut(&field_value) {
                     posting.0 = next_bucket_id;
                 }
 
+                anda_db_utils::verif_point!("insert_array:migrate.buckets.get_mut(old)");
                 if let Some(mut ob) = self.buckets.get_mut(&old_bucket_id)
                     && ob.2.swap_remove_if(|k| &field_value == k).is_some()
                 {
@@ -1595,6 +1622,7 @@ where
                     // normally exists, but if it ever went missing the posting
                     // would silently stop being tracked by any bucket and be
                     // lost on the next reload.
+                    anda_db_utils::verif_point!("insert_array:migrate.buckets.entry(next)");
                     let mut nb = self
                         .buckets
                         .entry(next_bucket_id)
@@ -1611,12 +1639,15 @@ where
                 }
 
                 if new_bucket {
+                    anda_db_utils::verif_point!("insert_array:migrate.max_bucket_id.fetch_add");
                     next_bucket_id = self.max_bucket_id.fetch_add(1, Ordering::Relaxed) + 1;
                     // update the posting's bucket_id again
+                    anda_db_utils::verif_point!("insert_array:migrate.postings.get_mut(again)");
                     if let Some(mut posting) = self.postings.get_mut(&field_value) {
                         posting.0 = next_bucket_id;
                     }
 
+                    anda_db_utils::verif_point!("insert_array:migrate.buckets.entry(fresh)");
                     match self.buckets.entry(next_bucket_id) {
                         dashmap::Entry::Vacant(entry) => {
                             // Create a new bucket with the initial size
@@ -1635,6 +1666,7 @@ where
 
         // Update metadata if any items were inserted
         if inserted_count > 0 {
+            anda_db_utils::verif_point!("insert_array:metadata.write");
             self.update_metadata(|m| {
                 m.stats.version += 1;
                 m.stats.last_inserted = now_ms;
@@ -1669,6 +1701,7 @@ where
         }
 
         // Shared with other mutations, exclusive against `compact_buckets`.
+        anda_db_utils::verif_wait!("gate:read", || !self.mutation_gate.is_locked_exclusive());
         let _mutation_guard = self.mutation_gate.read();
 
         // Track removal statistics
@@ -1686,6 +1719,7 @@ where
             let mut bucket_id = 0;
 
             // Check if this field value exists
+            anda_db_utils::verif_point!("remove_array:postings.get_mut");
             if let Some(mut posting) = self.postings.get_mut(&field_value) {
                 bucket_id = posting.0;
 
@@ -1731,6 +1765,7 @@ where
             pending_removals
         {
             let mut entry_removed = false;
+            anda_db_utils::verif_point!("remove_array:postings.remove_if");
             if posting_empty
                 && self
                     .postings
@@ -1755,12 +1790,14 @@ where
 
         if !entries_removed.is_empty() {
             for value in &entries_removed {
+                anda_db_utils::verif_point!("remove_array:btree.write");
                 self.remove_btree_key_if_posting_absent(value);
             }
         }
 
         // Update all modified buckets
         for (bucket_id, (size_decrease, field_values)) in bucket_updates {
+            anda_db_utils::verif_point!("remove_array:buckets.get_mut");
             if let Some(mut bucket) = self.buckets.get_mut(&bucket_id) {
                 bucket.0 = bucket.0.saturating_sub(size_decrease);
                 self.mark_bucket_dirty(&mut bucket); // Mark as dirty
@@ -1782,6 +1819,7 @@ where
 
         // Update metadata if any items were removed
         if removed_count > 0 {
+            anda_db_utils::verif_point!("remove_array:metadata.write");
             self.update_metadata(|m| {
                 m.stats.version += 1;
                 m.stats.last_deleted = now_ms;
@@ -2323,6 +2361,7 @@ where
     {
         // Synchronous snapshot phase: serialize dirty buckets and the
         // manifest-bearing metadata before the first await.
+        anda_db_utils::verif_point!("flush:has_dirty_buckets");
         let has_dirty = self.has_dirty_buckets();
         if !has_dirty && !self.has_pending_metadata_flush() {
             return Ok(FlushOutcome::default());
@@ -2336,8 +2375,10 @@ where
             self.update_metadata(|m| m.stats.version += 1);
         }
 
+        anda_db_utils::verif_point!("flush:serialize_dirty_buckets");
         let dirty = self.serialize_dirty_buckets()?;
 
+        anda_db_utils::verif_point!("flush:metadata.read");
         let mut meta = self.metadata();
         meta.stats.last_saved = now_ms.max(meta.stats.last_saved);
         // This flush's generation: unique per committed manifest because the
@@ -2350,6 +2391,7 @@ where
         let committed = meta.buckets.clone();
         let dirty_ids: FxHashSet<u32> = dirty.iter().map(|s| s.bucket_id).collect();
         let mut manifest = BTreeMap::new();
+        anda_db_utils::verif_point!("flush:buckets.iter(manifest)");
         for entry in self.buckets.iter() {
             let id = *entry.key();
             if dirty_ids.contains(&id) {
@@ -2470,14 +2512,17 @@ where
         // Exclusive: no mutation may observe — or add to — the half-rebuilt
         // bucket map. Every mutator takes the shared side of this gate before
         // touching any other lock, so the ordering is uniform and deadlock-free.
+        anda_db_utils::verif_wait!("gate:write", || !self.mutation_gate.is_locked());
         let _mutation_guard = self.mutation_gate.write();
 
+        anda_db_utils::verif_point!("compact:buckets.len");
         let old_count = self.buckets.len();
         if old_count <= 1 {
             return (old_count, old_count);
         }
 
         // Step 1: Estimate each field value's serialized contribution.
+        anda_db_utils::verif_point!("compact:postings.iter");
         let mut fv_sizes: Vec<(FV, usize)> = self
             .postings
             .iter()
@@ -2488,9 +2533,13 @@ where
             .collect();
 
         if fv_sizes.is_empty() {
+            anda_db_utils::verif_point!("compact:buckets.clear(empty)");
             self.buckets.clear();
+            anda_db_utils::verif_point!("compact:buckets.insert(empty)");
             self.buckets.insert(0, (0, true, UniqueVec::default(), 1));
+            anda_db_utils::verif_point!("compact:max_bucket_id.store(empty)");
             self.max_bucket_id.store(0, Ordering::Relaxed);
+            anda_db_utils::verif_point!("compact:metadata.write(empty)");
             self.update_metadata(|m| {
                 m.stats.version += 1;
             });
@@ -2515,6 +2564,7 @@ where
         }
 
         // Step 4: Rebuild buckets.
+        anda_db_utils::verif_point!("compact:buckets.clear");
         self.buckets.clear();
         let new_count = bins.len();
         let max_id = new_count.saturating_sub(1) as u32;
@@ -2524,16 +2574,20 @@ where
 
             // Update posting references.
             for fv in &field_values {
+                anda_db_utils::verif_point!("compact:postings.get_mut");
                 if let Some(mut posting) = self.postings.get_mut(fv) {
                     posting.0 = bucket_id;
                 }
             }
 
+            anda_db_utils::verif_point!("compact:buckets.insert");
             self.buckets
                 .insert(bucket_id, (size, true, field_values.into(), 1));
         }
 
+        anda_db_utils::verif_point!("compact:max_bucket_id.store");
         self.max_bucket_id.store(max_id, Ordering::Relaxed);
+        anda_db_utils::verif_point!("compact:metadata.write");
         self.update_metadata(|m| {
             m.stats.version += 1;
         });
